@@ -421,6 +421,33 @@ def rule_firstheart(ctx, R):
                         if "1" not in [v for v, _ in tt["arms"]] and [v for v, _ in tt["arms"]] == ["0"]:
                             guards.append((gb, tt["otherwise"]))
             ok = bool(guards) and not reaches_without(cfg, [0], bi, cut_edges=guards)
+            if bool(guards) and not ok:
+                # the emptiness test may be folded into a flag (`cond && matches!(slot, Nil)`): follow the paths of
+                # one iteration with path-precise values and drop those that test the flag against its own value
+                from .paths import acyclic_paths, PathOriginsOv
+                gset = set(guards)
+                ok = True
+                try:
+                    for p_ in acyclic_paths(cfg, M.head, [bi], 6000):
+                        if any((p_[i], p_[i + 1]) in gset for i in range(len(p_) - 1)):
+                            continue
+                        org_ = PathOriginsOv(b, fb, p_)
+                        feasible = True
+                        for i in range(len(p_) - 1):
+                            t_ = b.blocks[p_[i]]["term"]
+                            if t_["k"] == "switch" and t_.get("xty") == "bool":
+                                o_ = org_.of_operand(t_["x"], p_[i], "t")
+                                if o_[0] == "const" and isinstance(o_[2], (int, bool)):
+                                    w_ = [bb for v_, bb in t_["arms"] if int(v_) == int(o_[2])]
+                                    w_ = w_[0] if w_ else t_["otherwise"]
+                                    if p_[i + 1] != w_:
+                                        feasible = False
+                                        break
+                        if feasible:
+                            ok = False
+                            break
+                except RuntimeError:
+                    ok = False
             R.check(ok, "parse:firstheart:%d" % n, "a heart is stored into an operator's right slot only when that slot is still empty (first heart of a slot wins)", s["span"]["at"])
     R.floor("heart_slot_stores", n, 1, "stores of a heart leaf into a right slot")
 
@@ -734,6 +761,21 @@ def tree_effects(M, T, entry, exits, extra=None, track=None, guard_extra=()):
         r = Roles(b, fb, param_roles={1: "CODE"}, org=org)
         ev = Events(b, fb, roles=r)
         guards, effects = [], []
+        # a path on which a flag that was given a constant on this very path (`matches!(..)`, `a && b`) is then tested
+        # the other way round does not exist
+        feasible = True
+        for i, bi in enumerate(p[:-1]):
+            t_ = b.blocks[bi]["term"]
+            if t_["k"] == "switch" and t_.get("xty") == "bool":
+                o_ = org.of_operand(t_["x"], bi, "t")
+                if o_[0] == "const" and isinstance(o_[2], (int, bool)):
+                    want_ = [bb for v_, bb in t_["arms"] if int(v_) == int(o_[2])]
+                    want_ = want_[0] if want_ else t_["otherwise"]
+                    if p[i + 1] != want_:
+                        feasible = False
+                        break
+        if not feasible:
+            continue
         for i, bi in enumerate(p):
             blk = b.blocks[bi]
             for si, s in enumerate(blk["stmts"]):
